@@ -11,6 +11,7 @@ import (
 	"fmt"
 	"math/rand"
 	"path/filepath"
+	"sort"
 	"strings"
 	"sync"
 
@@ -325,6 +326,43 @@ func runCrash(hist []Mut, mi, n, variant int, expdir string) (v verdict) {
 		for _, x := range mmAfter {
 			if recordLookups[x.Lookup] {
 				v.key, v.what = "rebuild-lost-record", x.Lookup+": "+x.Detail
+				return v
+			}
+		}
+		// A mutation acknowledged AFTER the interrupted rebuild must be fully applied whatever
+		// state the rebuild left behind: surviving signatures are added again with unchanged
+		// content and must then be reachable through the entropy index (the model does not
+		// change). Only afterwards the rebuild is re-run.
+		var ids []string
+		for id := range model.Sigs {
+			ids = append(ids, id)
+		}
+		sort.Strings(ids)
+		for k, id := range ids {
+			if k >= 3 {
+				break
+			}
+			x := model.Sigs[id]
+			c := x
+			if err := db2.AddSignature(&c); err != nil {
+				v.key, v.what = "op-result/Add-after-interrupted-rebuild", err.Error()
+				return v
+			}
+			lo, hi := x.EntropyScore-0.00005, x.EntropyScore+0.00005
+			if lo < 0 {
+				lo = 0
+			}
+			got, err := db2.ScanByEntropyRange(lo, hi)
+			v.lookups++
+			found := false
+			for _, g := range got {
+				if g.ID == id {
+					found = true
+				}
+			}
+			if err != nil || !found {
+				v.key = "ack-lost/Add-after-interrupted-rebuild"
+				v.what = fmt.Sprintf("rebuild cut at write-op %d (%s); after reopening, AddSignature(%s) with its stored content returned nil, but ScanByEntropyRange(%.5f, %.5f) does not return it (err=%v, %d results): the acknowledged add left the signature without its index entries", n, v.cutOp, id, lo, hi, err, len(got))
 				return v
 			}
 		}
